@@ -152,6 +152,7 @@ var hostileKinds = []string{
 	"index-negative", "index-over", "index-shift",
 	"aunt-flip", "aunts-short", "aunts-long", "aunts-swap", "aunt-length", "aunts-of-other-index",
 	"other-block", "other-bytes-own-proof", "own-bytes-other-proof",
+	"inner-preimage",
 }
 
 // hostile derives one or more forged deliveries of the given kind from proposer part j.
@@ -273,6 +274,47 @@ func (t *truth) hostile(r *rng.R, kind string, j int) []*delivery {
 			return nil
 		}
 		return []*delivery{mk(j, b, t.other.aunts[j])}
+	case "inner-preimage":
+		// Second-preimage forgery: the bytes of the "part" are the pre-image of an inner node on the audit path
+		// of part j (rlp(left)|rlp(right)), presented with the aunts below that node removed, at the index of
+		// part j and at the leftmost index of the node's subtree. Only a verifier that ties the path length to
+		// the shape fixed by (index,total) rejects it.
+		if len(a) == 0 {
+			return nil
+		}
+		var right []bool
+		var los []int
+		lo, n := 0, t.total
+		for n > 1 {
+			los = append(los, lo)
+			nl := (n + 1) / 2
+			if j-lo < nl {
+				right = append(right, false)
+				n = nl
+			} else {
+				right = append(right, true)
+				lo += nl
+				n -= nl
+			}
+		}
+		if len(right) != len(a) {
+			return nil
+		}
+		var out []*delivery
+		h := crypto.Keccak256(b)
+		for i := range a {
+			l, rr := h, a[i]
+			if right[len(right)-1-i] {
+				l, rr = a[i], h
+			}
+			pre := append(append([]byte{}, rlpString(l)...), rlpString(rr)...)
+			h = crypto.Keccak256(pre)
+			out = append(out, mk(j, pre, cpAunts(a[i+1:])))
+			if sub := los[len(right)-1-i]; sub != j {
+				out = append(out, mk(sub, pre, cpAunts(a[i+1:])))
+			}
+		}
+		return out
 	}
 	panic("unknown hostile kind " + kind)
 }
